@@ -81,6 +81,9 @@ def go_term_type(case, T):
     e = go_elem_type(case, T["t"], T["i"])
     if k in ("sym", "opt"):
         return e
+    if case.get("named_lists"):
+        # a defined slice type: the term's value type []E is assignable to it, but it is not identical with it
+        return "L_" + e.lstrip("*")
     return "[]" + e
 
 
@@ -110,6 +113,8 @@ def render_go(case, pkg):
     for n in rnames:
         o += ["type N_%s struct{ hk.Node }" % n, "",
               "func (n *N_%s) Discard() bool { return n.NTok%%2 == 0 }" % n, ""]
+    if case.get("named_lists"):
+        o += ["type L_Token []Token", ""] + ["type L_N_%s []*N_%s\n" % (n, n) for n in rnames]
     for m in ms:
         rn = "u" if case.get("uniform") else case["rules"][m["rule"]]["name"]
         params = ", ".join("a%d %s" % (i, t) for i, t in enumerate(m["params"]))
@@ -124,6 +129,10 @@ def render_go(case, pkg):
           "\tcase []Token:", "\t\tvs := make([]hk.Val, 0, len(v))",
           "\t\tfor _, e := range v {", "\t\t\tvs = append(vs, hk.TokVal(e))", "\t\t}",
           "\t\treturn hk.ListVal(vs)"]
+    if case.get("named_lists"):
+        o += ["\tcase L_Token:", "\t\treturn val([]Token(v))"]
+        for n in rnames:
+            o += ["\tcase L_N_%s:" % n, "\t\treturn val([]*N_%s(v))" % n]
     for n in rnames:
         o += ["\tcase *N_%s:" % n, "\t\tif v == nil {", "\t\t\treturn hk.NodeVal(nil)", "\t\t}",
               "\t\treturn hk.NodeVal(&v.Node)",
